@@ -16,6 +16,7 @@ mod s_c08;
 mod s_c09;
 mod s_c10;
 mod s_c11;
+mod s_c12;
 mod s_c14;
 mod s_smoke;
 mod wire;
@@ -71,6 +72,7 @@ fn main() {
         "C09" => s_c09::run(&mut em, thorough, seed),
         "C10" => s_c10::run(&mut em, thorough, seed),
         "C11" => s_c11::run(&mut em, thorough, seed),
+        "C12" => s_c12::run(&mut em, thorough, seed),
         "C14" => s_c14::run(&mut em, thorough, seed),
         "smoke" => s_smoke::run(&mut em),
         "evalmix" => s_eval::run_profile(
